@@ -741,6 +741,14 @@ theorem auth_meets_spec (r : Req) (hnd : (r.users.map (·.1)).Nodup) : specOK r 
     refine ⟨(u, p), hm, ?_⟩
     simp [pairMatches, hu]
 
+/-- **…and with skip paths**: only a request whose path is literally a configured skip path is exempt -/
+theorem auth_gate_meets_spec (skip : Bool) (r : Req) (hnd : (r.users.map (·.1)).Nodup) :
+    gateSpecOK skip r (gate skip r) = true := by
+  unfold gateSpecOK gate
+  cases skip
+  · simpa using auth_meets_spec r hnd
+  · rfl
+
 /-- non-vacuity: a password with colons is accepted, a lower-case scheme is refused with 401 -/
 example : (serve { users := [("colon".toList, "a:b:c".toList)], realm := "R".toList,
                    auth := "Basic Y29sb246YTpiOmM=".toList, dec := some "colon:a:b:c".toList }).ran = true := by decide
